@@ -90,6 +90,13 @@ Theorem C06_join_concave_iff : forall jt tlim gd sin_a cos_a,
 Proof. exact join_concave_iff. Qed.
 Print Assumptions C06_join_concave_iff.
 
+(* the miter threshold used for every vertex of a call is the one derived from the miter limit in force at that Execute,
+   whether it came from the constructor or from the MiterLimit setter *)
+Theorem C06_temp_lim_in_force : forall acos_f sin_f cos_f miter_limit arc_tolerance e,
+  c_tlim (ctx_of acos_f sin_f cos_f miter_limit arc_tolerance e) = temp_lim miter_limit.
+Proof. exact ctx_temp_lim. Qed.
+Print Assumptions C06_temp_lim_in_force.
+
 (* OffsetPolygon reads path[j], path[k], norms[j], norms[k] in bounds for every length *)
 Theorem C06_polygon_accesses_in_bounds : forall len : Z, (0 <= len)%Z -> forallb (in_bounds len) (polygon_accesses len) = true.
 Proof. exact polygon_accesses_in_bounds. Qed.
